@@ -28,10 +28,15 @@ def gen_case(rng):
     n = rng.choice([0, 1, 2, 3, 5, 8, 12])
     names = rng.sample(POOL, min(n, len(POOL)))
     base = rng.randint(0, 6)
+    if rng.random() < 0.03:
+        # a long table (more rows than any block size an implementation might buffer)
+        n = rng.choice([1, 2, 3])
+        names = rng.sample(POOL, n)
+        base = rng.choice([257, 258, 300, 513, 600, 1030])
     fmt = rng.choice(FORMATS)
     series = {}
     for nm in names:
-        ln = base if rng.random() < 0.7 else rng.randint(0, 8)
+        ln = base if (rng.random() < 0.7 or base > 8) else rng.randint(0, 8)
         vals = []
         for _ in range(ln):
             r = rng.random()
@@ -150,8 +155,13 @@ def run(ctx):
         c = gen_case(ctx.rng)
         res = run_impl(c)
         out.failures.extend(oracle(c, res))
-        cases.append(emit(c, res))
-        metas.append(c)
+        cells = sum(len(v) for v in c['series'].values())
+        if cells <= 400:
+            cases.append(emit(c, res))
+            metas.append(c)
+        else:
+            stats.setdefault('long_tables_oracle_only', 0)
+            stats['long_tables_oracle_only'] += 1
         lens = set(len(v) for v in c['series'].values())
         stats['empty'] += 1 if not c['order'] else 0
         stats['ragged'] += 1 if len(lens) > 1 else 0
@@ -164,7 +174,7 @@ def run(ctx):
     out.corr_errors = errs
     for i in bad[:20]:
         out.disagreements.append({'input': metas[i], 'case': cases[i][:600]})
-    out.evaluations = len(cases)
+    out.evaluations = len(cases) + stats.get('long_tables_oracle_only', 0)
     out.nontrivial = len(seen)
     out.rule = ('random TimeSeriesHolder contents: 0-12 names drawn from priority and ordinary names, equal or ragged '
                 'lengths 0-8, ints and floats of every magnitude incl. inf/nan, ten format strings; compared: '
@@ -195,4 +205,4 @@ def replay(path):
     for f in fails:
         print('FAILS:', f['key'], f['what'][:300])
     print('replay: %s' % ('property violated' if fails else 'property holds on this input'))
-    return 1 if fails else 0
+    return common.replay_status(PID, fails)
